@@ -23,6 +23,7 @@ const corpusBase = uint64(1) << 40
 
 type replayFile struct {
 	Engine string  `json:"engine"`
+	Mode   string  `json:"mode"`
 	Seed   *uint64 `json:"seed"`
 	Index  *uint64 `json:"index"`
 	Script *Script `json:"script"`
@@ -72,8 +73,11 @@ func runFile(ctx *hk.RunCtx, path string, idx uint64) error {
 		}
 		return fmt.Errorf("%s: corpus case %d not found in %s", path, *rf.Index-corpusBase, ctx.Corpus)
 	case rf.Seed != nil && rf.Index != nil:
-		r := hk.Derive(*rf.Seed, *rf.Index)
-		return runScript(ctx, genScript(r, ctx.Tier, func(string) {}), *rf.Index, label)
+		mode := ctx.Mode
+		if rf.Mode != "" {
+			mode = rf.Mode
+		}
+		return runScript(ctx, genCase(*rf.Seed, *rf.Index, mode, ctx.Tier, func(string) {}), *rf.Index, label)
 	}
 	return fmt.Errorf("%s: neither a script nor (seed, index)", path)
 }
@@ -94,7 +98,7 @@ func (Engine) Run(ctx *hk.RunCtx) error {
 		ctx.Res.Hit("corpus-or-replay-case")
 		return runFile(ctx, ctx.Replay, 0)
 	}
-	if ctx.Corpus != "" && ctx.From == 0 {
+	if ctx.Corpus != "" && ctx.From == 0 && ctx.Mode != "targeted" {
 		for i, f := range corpusFiles(ctx.Corpus) {
 			ctx.Res.Hit("corpus-or-replay-case")
 			if err := runFile(ctx, f, corpusBase+uint64(i)); err != nil {
@@ -104,8 +108,7 @@ func (Engine) Run(ctx *hk.RunCtx) error {
 	}
 	for i := 0; i < ctx.N; i++ {
 		idx := uint64(ctx.From + i)
-		r := hk.Derive(ctx.Seed, idx)
-		sc := genScript(r, ctx.Tier, ctx.Res.Hit)
+		sc := genCase(ctx.Seed, idx, ctx.Mode, ctx.Tier, ctx.Res.Hit)
 		if err := runScript(ctx, sc, idx, ""); err != nil {
 			return err
 		}
